@@ -293,6 +293,12 @@ fn witnesses(or: &mut Oracle) {
             k += 1;
         }
     }
+    // AESV2 without any /Length entry (regression witness of the 40 bit default)
+    for xref_stream in [false, true] {
+        let opt = DocOptions { tweak: Some(Tweak::NoLength), variant: variant_named("R4-AES128", 16), encrypt_metadata: true, indirect_encrypt: true, xref_stream, with_metadata: true, with_objstm: true };
+        files_case(or, 0xC06, 1_000_000 + k, Some(&opt));
+        k += 1;
+    }
 }
 
 /// malformed encryption dictionaries must end in an error, never in a panic (D18)
@@ -374,4 +380,5 @@ pub fn run(driver: &Driver, seed: u64, thorough: bool, replay: Option<&Value>) -
     rep.oracles.push(files_oracle(seed, 0, if thorough { 30_000 } else { 1500 }));
     rep
 }
+
 
